@@ -309,15 +309,38 @@ func c04b(c *Ctx) {
 		c.Check(instrDominates(rsCalls[0].(ssa.Instruction), rbCalls[0].(ssa.Instruction)), name+"/statements-before-branch", c.W.Pos(rbCalls[0].Pos()), "statements are rendered before the branch", "renderBranching does not follow renderStatements")
 		c.Check(c.term(fn, b[1]) == "$2" && closure != nil && b[4] == ssa.Value(closure), name+"/branch-args", c.W.Pos(rbCalls[0].Pos()), "branching gets the script name and the register closure", "renderBranching is not given (scriptName, ..., registerJumpChunk)")
 		// nextChunkID
-		nx, isPhi := b[3].(*ssa.Phi)
-		if !isPhi {
+		// nextChunkID: a value chosen in place, or by a helper that chooses it
+		type nextAlt struct {
+			term string
+			must []string
+		}
+		var nalts []nextAlt
+		nxPos := c.W.Pos(rbCalls[0].Pos())
+		if nx, isPhi := b[3].(*ssa.Phi); isPhi {
+			nxPos = c.W.Pos(nx.Pos())
+			for i, e := range nx.Edges {
+				nalts = append(nalts, nextAlt{c.term(fn, e), c.edgeMust(fn, nx.Block().Preds[i], nx.Block())})
+			}
+		} else if call, isCall := b[3].(*ssa.Call); isCall {
+			if alts, ok := c.PC(fn).altsOfCall(call); ok {
+				for _, a := range alts {
+					na := nextAlt{term: c.T(fn).Canon(a.term)}
+					for _, l := range a.cond {
+						na.must = append(na.must, c.T(fn).Canon(l))
+					}
+					nalts = append(nalts, na)
+				}
+			}
+		}
+		if len(nalts) == 0 {
 			c.Bad(name+"/next-chunk-id", c.W.Pos(rbCalls[0].Pos()), "nextChunkID is not chosen between 'next in order' and -1")
 		} else {
 			k := strings.TrimSuffix(strings.TrimPrefix(chunkT, "$1["), "]") // chunkIDs[i]
 			okNext, okLast := false, false
-			for i, e := range nx.Edges {
-				et := c.term(fn, e)
-				must := c.edgeMust(fn, nx.Block().Preds[i], nx.Block())
+			var shown []string
+			for _, na := range nalts {
+				et, must := na.term, na.must
+				shown = append(shown, et)
 				idx := ""
 				if j := strings.LastIndex(k, "["); j > 0 {
 					idx = strings.TrimSuffix(k[j+1:], "]")
@@ -328,12 +351,14 @@ func c04b(c *Ctx) {
 				}
 				if et == base+"["+addOne(idx)+"]" && hasLit(must, "+"+ltTerm(idx, "builtin:len("+base+")-1")) {
 					okNext = true
-				}
-				if et == "-1" && hasLit(must, "-"+ltTerm(idx, "builtin:len("+base+")-1")) {
+				} else if et == "-1" && hasLit(must, "-"+ltTerm(idx, "builtin:len("+base+")-1")) {
 					okLast = true
+				} else {
+					okNext, okLast = false, false
+					break
 				}
 			}
-			c.Check(okNext && okLast, name+"/next-chunk-id", c.W.Pos(nx.Pos()), "nextChunkID = id that follows in the order, -1 for the last chunk", "nextChunkID is not (order[i+1] if i < len-1 else -1): "+pretty(fmt.Sprint(edgeTerms(c, fn, nx))))
+			c.Check(okNext && okLast, name+"/next-chunk-id", nxPos, "nextChunkID = id that follows in the order, -1 for the last chunk", "nextChunkID is not (order[i+1] if i < len-1 else -1): "+pretty(fmt.Sprint(shown)))
 		}
 		// error from renderStatements is propagated
 		_ = a
